@@ -214,6 +214,7 @@ def continued_run(ctx, seed):
             rows1 = np.array(r1.py_get_result(), dtype=float)
             I.py_set_initial_state(rows1[-1].copy())
             I.py_set_initial_time(10.0)
+            parts = r1.py_get_delay_queue().py_binomial_partition(0.5) if kind == "delay" else None      # (before leg 2 uses the queue up)
             r2 = leg(T2, r1.py_get_delay_queue())
             rows2 = np.array(r2.py_get_result(), dtype=float)
             ctx.evaluated()
@@ -222,6 +223,22 @@ def continued_run(ctx, seed):
             t = np.concatenate([T1, T2])
             early = [float(a) for a, b in zip(t, y) if a <= 11.9 and b != 0]
             late = [float(a) for a, b in zip(t, y) if a >= 13.1 and b != 20]
+            # ... and the same continuation after the carried-over queue was split between two daughters (a division): every
+            # pending delivery goes to exactly one of them and arrives there at its own time
+            if kind == "delay":
+                ysum = np.zeros(len(T2))
+                for qd in (parts[0], parts[1]):
+                    I.py_set_initial_state(np.zeros(2))
+                    I.py_set_initial_time(10.0)
+                    ysum += np.array(DelaySSASimulator().py_delay_simulate(I, qd, T2).py_get_result(), dtype=float)[:, yi]
+                ctx.evaluated()
+                e2 = [float(a) for a, b in zip(T2, ysum) if a <= 11.9 and b != 0]
+                l2 = [float(a) for a, b in zip(T2, ysum) if a >= 13.1 and b != 20]
+                if e2 or l2:
+                    ctx.violation("delivery-time/partitioned-queue", "the queue returned by a delay simulation (delay 12, all firings before t=1, %d slots) split between two "
+                                  "daughters: together they report deliveries before t=11.9 at %s, not all 20 at t=%s" % (qlen, e2[:3], l2[:3]),
+                                  dict(case, Y_daughters=ysum[::10].tolist()))
+                    return
             if early or late:
                 ctx.violation("delivery-time/continued-run", "a %s simulation continued with the queue it returned (delay 12, all firings before t=1, %d slots): "
                               "Y reported before t=11.9 at %s, not all 20 delivered at t=%s" % (kind, qlen, early[:3], late[:3]),
